@@ -88,6 +88,8 @@ def cases(tier, seed):
     for m in rt.collision_models():
         if in_fragment(m):
             yield ('D', m)
+    for t in families.long_chains():
+        yield ('K', cm.on_carrier([t]))
     for t in families.deep_trees():
         if True:
             yield ('K', cm.on_carrier([t]))
